@@ -46,9 +46,11 @@ impl ResolveState {
     pub(crate) fn push_mapping_key(&mut self, key: &Value) -> Result<()> {
         let kstr = match key.raw_string() {
             Ok(s) => s,
-            Err(_) => match key {
+            Err(e) => match key {
                 Value::String(s) => Ok(s.clone()),
                 Value::ValueList(_) => Err(anyhow!("Unable to render ValueList as key segment")),
+                // Mappings and Sequences which can't be rendered as JSON
+                Value::Mapping(_) | Value::Sequence(_) => Err(e),
                 _ => unreachable!("raw_string() implemented for other Value variants"),
             }?,
         };
